@@ -108,18 +108,22 @@ def po_aave(S):
 
 # ------------------------------------------------------------------------------------------------ Deribit (hourly)
 @proof("C02", "deribit/status-is-the-row-of-the-current-hour;frame-and-its-book-cells-intact", strength="S",
-       shapes={"quick": [{"ts": "open"}, {"ts": "closed"}, {"ts": "late"}], "thorough": [{"ts": "open"}, {"ts": "closed"}, {"ts": "late"}, {"ts": "half"}]})
+       shapes={"quick": [{"ts": "open"}, {"ts": "closed"}, {"ts": "late"}, {"ts": "gap"}], "thorough": [{"ts": "open"}, {"ts": "closed"}, {"ts": "late"}, {"ts": "half"}, {"ts": "gap"}, {"ts": "gap-late"}]})
 def po_deribit(S):
     from demeter.deribit import DeribitMarketStatus
     w = deribit_world(S, (("I0", "CALL", "open"),), 2, 2, ("I0",), H0)
     m = w.market
-    add_next_hour(S, w)
+    gap = S.shape["ts"].startswith("gap")
+    add_next_hour(S, w, H1 + pd.Timedelta(hours=1) if gap else H1)       # "gap": the hour under test (07:00) has NO snapshot, the next one (08:00) has
     f0 = dump(frame_cells(m))
     # on the hour / one minute past / a quarter to the NEXT hour (whose rows are in the frame: the nearest hour is the future one) / half past
-    ts = {"open": H0, "closed": H0_1, "late": H0 + pd.Timedelta(minutes=45), "half": H0 + pd.Timedelta(minutes=30)}[S.shape["ts"]]
+    ts = {"open": H0, "closed": H0_1, "late": H0 + pd.Timedelta(minutes=45), "half": H0 + pd.Timedelta(minutes=30),
+          "gap": H1, "gap-late": H1 + pd.Timedelta(minutes=40)}[S.shape["ts"]]
     m.set_market_status(DeribitMarketStatus(ts, None), m._price_status)
     st = dump(frame_cells_of(m._market_status.data))
     S.check("status-depends-only-on-the-current-hour's-rows", len(only_prefixed(symbols_of(st), ("I0_", "underlying"))) == 0)
+    if gap:
+        S.check("missing-snapshot:nothing-of-a-LATER-hour-is-shown", len([n for n in symbols_of(st) if n.startswith("nx_")]) == 0)
     if ts == H0:
         try:
             m.estimate_cost("I0", S.dec("quote_amount", 0, 10 ** 6), "buy" if S.bool("quote_a_buy") else "sell")     # a quote must not consume the book
@@ -136,16 +140,16 @@ def po_deribit(S):
 
 
 @native
-def add_next_hour(S, w):
-    """append the rows of the NEXT hour (fresh symbols 'nx_*') to the input frame"""
+def add_next_hour(S, w, at=H1):
+    """append the rows of a LATER hour (fresh symbols 'nx_*') to the input frame"""
     from .worlds import deribit_book, DERIBIT_COLS
     m = w.market
     mark = S.flt("nx_I0_mark", 0, 5, lo_strict=True)
     asks, bids = deribit_book(S, "nx_I0_", mark, 2, 2)
     row = dict(w.rows["I0"])
     row.update({"mark_price": mark, "asks": asks, "bids": bids, "underlying_price": S.flt("nx_underlying", 1, 10 ** 6)})
-    extra = pd.DataFrame.from_dict({(H1, "I0"): row}, orient="index", columns=list(DERIBIT_COLS)).astype(object)
-    extra.index = pd.MultiIndex.from_tuples([(H1, "I0")])
+    extra = pd.DataFrame.from_dict({(at, "I0"): row}, orient="index", columns=list(DERIBIT_COLS)).astype(object)
+    extra.index = pd.MultiIndex.from_tuples([(at, "I0")])
     m._data = pd.concat([m._data, extra])
 
 
